@@ -95,6 +95,9 @@ func envInt(name string, def int64) int64 {
 //	VERIF_CONTINUE  keep going after a failure (driver handles known findings)
 //	VERIF_DIGESTS   emit a "run" line with the digest of every run (determinism self-test)
 func Main(t *testing.T, h Harness) {
+	// let goroutines started by package initialisers (dbms/query starts one that sleeps for
+	// hours) reach their first blocking call before any simulation is active
+	time.Sleep(30 * time.Millisecond)
 	mode := os.Getenv("VERIF_MODE")
 	prop := os.Getenv("VERIF_PROPERTY")
 	if replay := os.Getenv("VERIF_REPLAY"); replay != "" {
@@ -159,6 +162,9 @@ func Main(t *testing.T, h Harness) {
 		agg.Policies[res.Policy]++
 		for k, v := range res.Stats {
 			agg.Stats[k] += v
+		}
+		if res.Abandoned != "" {
+			agg.Stats["abandoned."+res.Abandoned]++
 		}
 		for k, v := range ri.Counters {
 			agg.Stats[k] += v
